@@ -47,6 +47,18 @@ enum Call {
 }
 
 impl Call {
+    /// Index set of the collection the call runs against: an index-creating
+    /// reopen starts from the fixture without that index.
+    fn start_idx(&self) -> Idx {
+        use vdb::ops::IdxDelta::*;
+        match self {
+            Call::Reindex(AddTags) => Idx { tags: false, ..Idx::ALL },
+            Call::Reindex(AddBody) => Idx { body: false, ..Idx::ALL },
+            Call::Reindex(AddEmb) => Idx { emb: false, ..Idx::ALL },
+            Call::Reindex(AddName) => Idx { name: false, ..Idx::ALL },
+            _ => Idx::ALL,
+        }
+    }
     fn is_transition(&self) -> bool {
         !matches!(self, Call::Op(_) | Call::Reconcile | Call::Reindex(_))
     }
@@ -67,7 +79,7 @@ async fn exec_call(db: &AndaDB, coll: &Arc<Collection>, call: &Call) -> Outcome 
             if let Err(e) = db.close_collection(COLL_NAME).await {
                 return Outcome::Err(classify(&e));
             }
-            let had = Idx::ALL;
+            let had = call.start_idx();
             match fixture::open_coll_with(db, delta.apply(had), had).await {
                 Ok(_) => Outcome::Unit,
                 Err(e) => Outcome::Err(classify(&e)),
@@ -426,6 +438,15 @@ fn cancel_case(idx: Idx, call: &Call, dirty: bool, k: u32) -> CancelResult {
             if let Call::Reindex(delta) = call {
                 // the caller retries the same open: the requested index set is the target
                 exp.want_idx = delta.apply(idx);
+                // cancelled before close_collection took effect: the handle is still
+                // registered and an open would hand it back without running the
+                // callback, so the retry is the whole call (close, then open)
+                if coll.state() == CollectionState::Active {
+                    live.ctl.set_task(59);
+                    if let Err(e) = util::block_on(db.close_collection(COLL_NAME)) {
+                        problems.push((format!("reindex-retry-close|{}", call_kind(call)), format!("{label}: the retried close_collection failed on an Active handle: {e:?}")));
+                    }
+                }
             }
             reopen_and_check(&mut live, idx, &exp, &mut problems, &format!("cancelled-{}", call_kind(call)));
         }
@@ -845,7 +866,7 @@ fn main() {
         let mut problems = Vec::new();
         if r["kind"] == "cancel" {
             let call: Call = serde_json::from_value(r["call"].clone()).unwrap();
-            let res = cancel_case(idx, &call, r["dirty"].as_bool().unwrap(), r["k"].as_u64().unwrap() as u32);
+            let res = cancel_case(call.start_idx(), &call, r["dirty"].as_bool().unwrap(), r["k"].as_u64().unwrap() as u32);
             problems = res.problems;
         } else if r["kind"] == "fault" {
             let call: Call = serde_json::from_value(r["call"].clone()).unwrap();
@@ -904,6 +925,11 @@ fn main() {
         Call::Reindex(vdb::ops::IdxDelta::DropTags),
         Call::Reindex(vdb::ops::IdxDelta::DropBody),
         Call::Reindex(vdb::ops::IdxDelta::DropEmb),
+        // index creation with backfill over the stored documents
+        Call::Reindex(vdb::ops::IdxDelta::AddTags),
+        Call::Reindex(vdb::ops::IdxDelta::AddBody),
+        Call::Reindex(vdb::ops::IdxDelta::AddEmb),
+        Call::Reindex(vdb::ops::IdxDelta::AddName),
     ];
     let mut items = Vec::new();
     for c in &cancel_calls {
@@ -915,7 +941,7 @@ fn main() {
         let mut out = Vec::new();
         let mut k = 0u32;
         loop {
-            let r = cancel_case(idx, &call, dirty, k);
+            let r = cancel_case(call.start_idx(), &call, dirty, k);
             let completed = r.completed_at.is_some();
             out.push((k, r));
             if completed || k > 400 {
